@@ -249,7 +249,7 @@ Definition validate_string (o : oracles) (s : string) : option err :=
       if Ascii.eqb c "$"%char then
         match bytes_of r with
         | [] => None
-        | b :: _ as bs =>
+        | (b :: _) as bs =>
             if N.ltb b 128 then (if is_lower_ascii b then Some EInvalidDirective else None)
             else match decode_rune bs with
                  | Some cp => if o_lower o cp then Some EInvalidDirective else None
